@@ -15,7 +15,7 @@ from simkit.refmodel import RefLimiter
 ID = "C15"
 LEVEL = "exploration"
 BUDGET = {"quick": (3000, 35), "thorough": (800_000, 540)}
-RULE = ("program shapes {recursion, super() chain, callee exception caught, exception propagating, exception passing through a finally block, generator "
+RULE = ("program shapes {recursion, super() chain, callee exception caught, exception propagating, exception passing through a finally block (whose clean-up may itself call code that raises and handles another exception), generator "
         "suspended/closed, nesting, leaf, configuration emptied while the invocation runs, agent shut down by the application in the middle of an invocation and started again before the next thread} x 1-3 span/capture tracepoints (method span, line span, method capture, line "
         "capture; fire_count 1 or unlimited) x 1-3 threads each running 1-4 shapes x thread-ident reuse x seeded "
         "schedules; non-trivial = a run with at least one span opened or one snapshot deferred; distinct = distinct "
@@ -104,6 +104,20 @@ def finner(tag, out):
         out.append(('fin', tag + '#', None))  #L:fin_line
     return 'never'
 
+def quiet(tag, out):
+    try:
+        raise KeyError('k' + tag)
+    except KeyError:
+        pass
+    return 'q' + tag
+
+def finner2(tag, out):
+    try:
+        thrower(tag + 'f', out)  #L:fin2_call
+    finally:
+        quiet(tag + 'c', out)  #L:fin2_line
+    return 'never'
+
 def halter(tag, out):
     a = leaf(tag + 'q', out)  #L:halt_a
     halt_agent()
@@ -115,6 +129,8 @@ def drive(shape, tag, out):
             v = halter(tag, out)
         elif shape == 'fin':
             v = finner(tag, out)
+        elif shape == 'fin2':
+            v = finner2(tag, out)
         elif shape == 'swap':
             v = swapper(tag, out)
             restore_config()
@@ -139,16 +155,16 @@ def drive(shape, tag, out):
         out.append(('exc', tag, str(e)))
         if shape == 'pass':
             out.append(('exc', tag + 'p', str(e)))
-        if shape == 'fin':
+        if shape in ('fin', 'fin2'):
             out.append(('exc', tag + 'f', str(e)))
 
 def tmain(tid, acts, out):
     for j, shape in enumerate(acts):
         drive(shape, 't%d_%d' % (tid, j), out)
 '''
-SHAPES = ("rec", "super", "catch", "pass", "gen", "nest", "leaf", "swap", "hop", "fin")
-FUNCS = ("rec", "work", "catcher", "passer", "thrower", "leaf", "usegen", "gen", "nest", "swapper", "hop", "halter", "finner")
-LINES = ("rec_call", "super_call", "catch_call", "pass_call", "gen_next", "nest_a", "nest_b", "leaf_body", "swap_a", "hop_call", "halt_a", "fin_call", "fin_line")
+SHAPES = ("rec", "super", "catch", "pass", "gen", "nest", "leaf", "swap", "hop", "fin", "fin2")
+FUNCS = ("rec", "work", "catcher", "passer", "thrower", "leaf", "usegen", "gen", "nest", "swapper", "hop", "halter", "finner", "finner2", "quiet")
+LINES = ("rec_call", "super_call", "catch_call", "pass_call", "gen_next", "nest_a", "nest_b", "leaf_body", "swap_a", "hop_call", "halt_a", "fin_call", "fin_line", "fin2_call", "fin2_line")
 # recursion that passes through a frame of ANOTHER source file (a decorator, visitor or dispatcher of a library)
 RELAY_SRC = "def relay(fn, *args):\n    res = fn(*args)\n    return res\n"
 GEN_FUNCS = ("gen",)
